@@ -39,11 +39,22 @@ class Facts:
         self.true = set()
         self.false = set()
         self.lf = linear.LinFacts()
-        self.lf.hook = ensures_hook
+        self.forall = []      # (sequence term, bound term): every element of the sequence is < bound
+        self.lf.hook = self._hook
+
+    def _hook(self, a, lf):
+        ensures_hook(a, lf)
+        if self.forall:
+            seq = element_of(a)
+            if seq is not None:
+                for s_, bound in self.forall:
+                    if same_seq(s_, seq):
+                        lf.add_le(a, bound, strict=True)
 
     def add_cond(self, atom, val):
         if val is None:
             return
+        atom = norm_first(atom)
         k = atom[0]
         if k == "ok":
             (self.ok if val else self.notok).add(atom[1])
@@ -53,11 +64,24 @@ class Facts:
                 # integer switch: value known
                 if val[0] == "eq":
                     self.rel.append(("==", atom[1], mk_const("usize", val[1])))
+                    self.lf.add_eq(atom[1], mk_const("usize", val[1]))
+                elif val[0] == "notin" and isinstance(atom[1], tuple) and atom[1][0] == "len":
+                    # an unsigned length that is none of 0..m-1 is at least m
+                    m = 0
+                    while m in val[1]:
+                        m += 1
+                    if m:
+                        self._add("<=", mk_const("usize", m), atom[1])
             return
         t = atom[1]
         (self.true if val else self.false).add(t)
         if not isinstance(t, tuple) or not t:
             return
+        if t[0] == "call" and isinstance(t[1], str) and t[1].endswith("Iterator>::any") and val is False and FB is not None:
+            # `seq.iter().any(|&i| i >= K)` is false: every element is below K
+            b = any_bound(t)
+            if b is not None:
+                self.forall.append((strip_iter(t[2][0]), b))
         op = None
         if t[0] == "bin" and t[1] in ("Lt", "Le", "Gt", "Ge", "Eq", "Ne"):
             op, x, y = t[1], t[2], t[3]
@@ -170,6 +194,76 @@ class Facts:
         return self.le(fold_bin("Add", a, mk_const("usize", 1)), b)
 
 
+FB = None      # fact base used to look into closures of `any` predicates; set by the rule modules that need it
+
+
+def strip_iter(t):
+    """the sequence an iterator term ranges over"""
+    n = 0
+    while isinstance(t, tuple) and t and n < 6:
+        if t[0] == "phi" and t[4] is not None:
+            t = t[4]
+        elif t[0] == "call" and isinstance(t[1], str) and re.search(r"::(iter|into_iter|iter_mut|rev|copied|cloned)$", t[1]) and t[2]:
+            t = t[2][0]
+        elif t[0] == "upd" and isinstance(t[1], str) and re.search(r"::(sort|sort_unstable)$", t[1]):
+            break
+        else:
+            break
+        n += 1
+    return t
+
+
+def same_seq(a, b):
+    return strip_iter(a) == strip_iter(b)
+
+
+def element_of(a):
+    """if `a` denotes an element of some sequence, that sequence"""
+    if not isinstance(a, tuple) or not a:
+        return None
+    if a[0] == "unwrap" and isinstance(a[1], tuple) and a[1] and a[1][0] == "call" and isinstance(a[1][1], str):
+        n = a[1][1]
+        if re.search(r"(slice::Iter<'a, T>|vec::IntoIter<T, A>) as std::iter::Iterator>::next$", n) or re.search(r"<impl \[T\]>::(first|last)$", n):
+            return strip_iter(a[1][2][0])
+    if a[0] == "idx":
+        return strip_iter(a[1])
+    return None
+
+
+def any_bound(t):
+    """K for a term any(seq, closure) whose closure is |&i| i >= K, K built from the closure's captures"""
+    from .symex import Engine, subst
+    cl = t[2][1]
+    if not (isinstance(cl, tuple) and cl[0] == "closure"):
+        return None
+    it = FB.items.get(cl[1])
+    if it is None:
+        return None
+    eng = Engine(FB, inline=lambda i: False)
+    ps = [p for p in eng.run(it) if p.kind == "return"]
+    if len(ps) != 1:
+        return None
+    rv = eng.value_of(ps[0].store, ps[0].ret)
+    if not (isinstance(rv, tuple) and rv[0] == "bin" and rv[1] in ("Ge", "Gt")):
+        return None
+    elem, k = rv[2], rv[3]
+    if not (elem == ("param", 2) or (isinstance(elem, tuple) and elem[0] in ("field",) and elem[1] == ("param", 2))):
+        return None
+    # captures: fields of the closure environment (param 1) -> the captured caller values
+    m, m2 = {}, {}
+    for i, v in enumerate(cl[2]):
+        m[("field", ("param", 1), ("f", str(i)))] = ("capture", i)
+        m2[("capture", i)] = v
+    k1 = subst(k, m)
+    from .symex import subterms as _st
+    if any(x == ("param", 1) or x == ("param", 2) for x in _st(("t", k1))):
+        return None
+    k2 = subst(k1, m2)
+    if rv[1] == "Gt":
+        k2 = fold_bin("Add", k2, mk_const("usize", 1))
+    return k2
+
+
 def split_const(t):
     if isinstance(t, tuple) and t and t[0] == "bin" and t[1] == "Add" and cint(t[3]) is not None:
         return t[2], cint(t[3])
@@ -207,6 +301,9 @@ def len_term(base):
     n = fixed_len(base)
     if n is not None:
         return mk_const("usize", n)
+    if isinstance(base, tuple) and base and base[0] == "upd":
+        from .symex import fold_len
+        return fold_len(base)
     if isinstance(base, tuple) and base and base[0] == "slice":
         if base[3] is None:
             return fold_bin("Sub", ("len", base[1]), base[2])
@@ -242,6 +339,8 @@ def len_bounded(t, facts, loop_inv):
 def _len_bounded_old(t, facts, loop_inv):
     if cint(t) is not None:
         return cint(t) < SMALL
+    if isinstance(t, tuple) and t and ((t[0] == "bin" and t[1] == "Shl" and cint(t[2]) == 1) or (t[0] == "call" and isinstance(t[1], str) and t[1].endswith("::capacity"))):
+        return True     # a tree capacity (1 << depth, depth < 32 by the structure invariant)
     if isinstance(t, tuple) and t and t[0] == "bin" and t[1] == "Mul" and cint(t[3]) is not None and cint(t[3]) <= 64 and _len_bounded_old(t[2], facts, loop_inv):
         return True     # in-memory lengths are < 2^48 (stated assumption): (len + small) * small cannot overflow
     if isinstance(t, tuple) and t and t[0] == "bin" and t[1] == "Add" and _len_bounded_old(t[2], facts, loop_inv) and _len_bounded_old(t[3], facts, loop_inv):
@@ -304,15 +403,39 @@ def fold_fixed_lens(t):
         n = fixed_len(t[1])
         if n is not None:
             return mk_const("usize", n)
+        from .symex import fold_len
+        x = t[1]
+        # a buffer carried through a loop that only stores into its elements keeps (at least) its initial length
+        n = 0
+        while isinstance(x, tuple) and x and x[0] == "phi" and x[4] is not None and n < 4:
+            x = x[4]
+            n += 1
+        if isinstance(x, tuple) and x and x[0] == "call" and x[1] == "std::vec::from_elem":
+            return fold_fixed_lens(x[2][1]) if isinstance(x[2][1], tuple) else x[2][1]
+        f = fold_len(fold_fixed_lens(t[1]) if isinstance(t[1], tuple) else t[1])
+        if f != t:
+            return f
     return tuple(fold_fixed_lens(x) if isinstance(x, tuple) else x for x in t)
+
+
+def norm_first(t):
+    """first(S).unwrap() is S[0]"""
+    if not isinstance(t, tuple) or not t:
+        return t
+    if t[0] == "unwrap" and isinstance(t[1], tuple) and t[1] and t[1][0] == "call" and isinstance(t[1][1], str) and re.search(r"<impl \[T\]>::first$", t[1][1]):
+        return ("idx", norm_first(t[1][2][0]), mk_const("usize", 0))
+    if t[0] == "call" and isinstance(t[1], str) and re.search(r"usize as std::ops::(Add|Sub)<(&'?\w* ?)?usize>>::(add|sub)$", t[1]) and len(t[2]) == 2:
+        # operator calls on references (&usize + usize) are plain integer arithmetic
+        return fold_bin("Add" if t[1].endswith("add") else "Sub", norm_first(t[2][0]), norm_first(t[2][1]))
+    return tuple(norm_first(x) if isinstance(x, tuple) else x for x in t)
 
 
 def discharge(kind, ops, facts, loop_inv, cond=None, expected=None):
     """returns None when discharged, else a human-readable obligation text"""
-    ops = tuple(fold_fixed_lens(o) if isinstance(o, tuple) else o for o in ops)
+    ops = tuple(norm_first(fold_fixed_lens(o)) if isinstance(o, tuple) else o for o in ops)
     if kind == "SliceIndex":
         base, lo, hi = ops
-        L = len_term(base)
+        L = fold_fixed_lens(len_term(base))
         if hi is None:
             return None if facts.le(lo, L) else "%s <= len(%s)" % (show(lo)[:80], show(base)[:80])
         if not facts.le(lo, hi):
@@ -325,7 +448,7 @@ def discharge(kind, ops, facts, loop_inv, cond=None, expected=None):
             L, idx = ops
         else:
             base, idx = ops
-            L = len_term(base)
+            L = fold_fixed_lens(len_term(base))
         return None if facts.lt(idx, L) else "%s < %s" % (show(idx)[:80], show(L)[:80])
     if kind.startswith("Overflow:"):
         a, b = ops
@@ -362,7 +485,8 @@ def discharge(kind, ops, facts, loop_inv, cond=None, expected=None):
                     return None
             # Option from first()/last()/get() guarded by a non-empty fact
             if r[0] == "call" and re.search(r"<impl \[T\]>::(first|last)$", r[1]):
-                if facts.lower(("len", r[2][0])) >= 1 or ("is_empty", r[2][0]) in facts.false:
+                L = fold_fixed_lens(("len", r[2][0]))
+                if facts.lower(L) >= 1 or facts.lower(("len", r[2][0])) >= 1 or ("is_empty", r[2][0]) in facts.false or facts.le(mk_const("usize", 1), L):
                     return None
             # is_some / is_none tested
             for t in facts.true:
